@@ -511,7 +511,7 @@ C19_RULE = ('FlatSet sizes n=0..400, 511..4097 and seed-derived n < 2000 (thorou
             'within the same bound and count() equal to the run length; SmallSet inline lookups and the position searches of erase(key)/insert/emplace '
             '<= 2N+2 for N in {1,2,4,8,16}, every fill, keys visited in ascending and descending order; SmallSet over FlatSet in its large state within the '
             'logarithmic bound; '
-            'non-trivial = n >= 64 (FlatSet) or fill >= 2 (SmallSet); distinct = distinct (configuration, n); keys_probed counts the lookups')
+            'the grid runs in a build with assertions and in a -DNDEBUG build; non-trivial = n >= 64 (FlatSet) or fill >= 2 (SmallSet); distinct = distinct (build, configuration, n); keys_probed counts the lookups')
 
 
 def check_C18(tier, seed, t0):
@@ -524,7 +524,9 @@ def check_C18(tier, seed, t0):
 
 
 def check_C19(tier, seed, t0):
-    parts = [enum_part('C19', 'lookup_grid', [enum_unit('lookup_c19', 'targets/lookup_c19.cpp', kind='plain')], seed, tier, C19_RULE, crash_is_violation=False, exhaustive=False,
+    parts = [enum_part('C19', 'lookup_grid', [enum_unit('lookup_c19', 'targets/lookup_c19.cpp', kind='plain'),
+                                            enum_unit('lookup_c19_ndebug', 'targets/lookup_c19.cpp', kind='plain', defines={'NDEBUG': None, 'VF_TNAME': '"lookup_c19_ndebug"'})],
+                       seed, tier, C19_RULE, crash_is_violation=False, exhaustive=False,
                        shards=8 if tier == 'quick' else 16)]
     return finish('C19', tier, seed, 'exploration', parts, C19_RULE, ASSUME_COMMON + ['comparator calls are counted by a global counter inside the comparator (key_comp() copies share it)'], t0)
 
@@ -659,7 +661,8 @@ def all_units():
     from . import c16
     us += [c16.unit(cfg, b) for cfg in c16.VEC + c16.FS + c16.SS for b in c16.QUICK_BUILDS if not (cfg in c16.SS and b[0] in ('11', '14'))]
     us += [enum_unit('exh_c12', 'targets/exh_c12.cpp'), enum_unit('growth_c18', 'targets/growth_c18.cpp', kind='plain'),
-           enum_unit('growth_c18_asan', 'targets/growth_c18.cpp', kind='asan'), enum_unit('lookup_c19', 'targets/lookup_c19.cpp', kind='plain')]
+           enum_unit('growth_c18_asan', 'targets/growth_c18.cpp', kind='asan'), enum_unit('lookup_c19', 'targets/lookup_c19.cpp', kind='plain'),
+           enum_unit('lookup_c19_ndebug', 'targets/lookup_c19.cpp', kind='plain', defines={'NDEBUG': None, 'VF_TNAME': '"lookup_c19_ndebug"'})]
     us += [ss_unit(n) for n, _ in C.SS_CONFIGS] + [ss_unit(n, '20') for n, _ in C.SS_CONFIGS[:4]]
     for s in ('11', '14', '20'):
         us += [fs_unit(n, s) for n in C.FS_MULTISTD]
